@@ -12,7 +12,7 @@ MC_PNames == IF NP >= 3 THEN {p1, p2, p3} ELSE IF NP = 2 THEN {p1, p2} ELSE {p1}
 MC_ANames == IF NA >= 2 THEN {a1, a2} ELSE IF NA = 1 THEN {a1} ELSE {}
 MC_PRates == {FZero, FOfNat(100)}
 MC_ARates == {FZero, FOfNat(100), FOfNat(200)}
-MC_FrameKinds == {"conf", "lesspt", "morept", "rename", "lessch", "morech", "empty"}
+MC_FrameKinds == {"conf", "lesspt", "morept", "rename", "lessch", "morech", "empty", "undeclA", "undeclP"}
 MC_ColKinds == {"ok1", "ok2", "dup", "newdup", "short", "none", "fewer", "more", "zero", "lesssub", "moresub"}
 MC_Tags == {1}
 MC_UserParams == <<>>
